@@ -575,7 +575,39 @@ def r11_request_headers_reach_the_filter_untouched(ctx):
             R.check(ok, "C14.R11", "proxy:header-op:%s@%d" % (op, sorted(x.bb for x in b.calls_to(r"HeaderMap::<.*>::\w+$")).index(c.bb)), "the proxy only inserts Content-Type / Accept", "ProxyGetRequest::call performs `%s` on the request's headers: beyond adding Content-Type and Accept the proxy must leave the headers alone - clearing / removing them takes the Host header away from an inner host filter, which then refuses a request whose Host is allow-listed" % op, where(c))
 
 
-RULES = [r11_request_headers_reach_the_filter_untouched, r10_header_value_is_taken_whole, r8_ports_registered_per_host, r9_port_numbers_are_parsed_as_u16, r1_gate, r2_port_table, r3_authority_table, r4_default_port, r5_one_parser_and_enabled_filter, r6_both_sides_spell_hosts_alike, r7_parser_fails_closed, rstatus_http_status_table]
+def r12_authority_comes_from_host_and_uri_only(ctx):
+    """what authority a request has is decided from its Host header and its URI, nothing else: of the request,
+    `Authority::from_http_request` reads `headers()` and `uri()` only. A branch on anything else (the HTTP version, a
+    pseudo-header rule for HTTP/2) lets one of the two win without the comparison - `:authority: allowed`, `Host: evil` -
+    on one entry point and not on the other."""
+    F, R = ctx.F, ctx.R
+    b = F.one(r"^jsonrpsee_server::middleware::http::authority::Authority::from_http_request$")
+    R.fn(b)
+    acc = [c for x in F.nested(b) for c in x.calls if re.search(r"^(hyper|http)::(request::)?Request::<.*>::\w+$", c.name() or "")]
+    other = [c for c in acc if not re.search(r"::(headers|uri)$", c.name() or "")]
+    R.floor("C14.R12", len(acc), 2, "reads of the request in from_http_request")
+    R.check(not other, "C14.R12", "reads-host-and-uri-only", "from_http_request reads headers() and uri()", "Authority::from_http_request also looks at %s: for some requests the Host header and the URI authority are no longer compared with each other" % sorted({short(c.name()) for c in other}), where(other[0]) if other else None)
+
+
+def r13_allow_list_entries_do_not_lend_each_other_ports(ctx):
+    """a request is admitted when it matches *one* configured entry in host and in port: when the allow-list is built,
+    the ports stored for a host pattern are the ports of the entries with exactly that host. The construction
+    (`WhitelistedHosts::from`) therefore touches its per-host table through `entry(host)` alone and matches no host
+    against another one (no Router::recognize at build time): patterns that overlap keep their own ports."""
+    F, R = ctx.F, ctx.R
+    bs = F.find(r"host_filter::WhitelistedHosts as std::convert::From<T>>::from$")
+    if len(bs) != 1:
+        raise AnchorLost("From<T> for WhitelistedHosts")
+    calls = [c for x in F.nested(bs[0]) for c in x.calls if not c.exp]
+    R.fn(bs[0])
+    tbl = [c for c in calls if re.search(r"BTreeMap::<.*>::(insert|get_mut|get|remove|extend|append|iter_mut|values_mut|retain)$|BTreeMap<.*> as std::ops::Index.*>::index$|HashMap::<.*>::(insert|get_mut|extend|iter_mut|values_mut)$", c.name() or "")]
+    rec = [c for c in calls if re.search(r"Router::<.*>::recognize$", c.name() or "")]
+    ent = [c for c in calls if re.search(r"BTreeMap::<.*>::entry$|HashMap::<.*>::entry$", c.name() or "")]
+    R.floor("C14.R13", len(ent), 1, "entry(host) sites in WhitelistedHosts::from")
+    R.check(not tbl and not rec, "C14.R13", "ports-per-entry-host", "each entry contributes its port to its own host only", "WhitelistedHosts::from moves ports between hosts while it builds the allow-list (%s): a request can be admitted on a port that belongs to another entry" % sorted({short(c.name()) for c in tbl + rec}), where((tbl + rec)[0]) if tbl + rec else None)
+
+
+RULES = [r12_authority_comes_from_host_and_uri_only, r13_allow_list_entries_do_not_lend_each_other_ports, r11_request_headers_reach_the_filter_untouched, r10_header_value_is_taken_whole, r8_ports_registered_per_host, r9_port_numbers_are_parsed_as_u16, r1_gate, r2_port_table, r3_authority_table, r4_default_port, r5_one_parser_and_enabled_filter, r6_both_sides_spell_hosts_alike, r7_parser_fails_closed, rstatus_http_status_table]
 
 LEVEL_TEXT = (
     "The gate (who may reach the inner service) is decided by dominance for every path of HostFilter::call, and the three "
